@@ -1,0 +1,93 @@
+//go:build verif
+// +build verif
+
+// Contracts for deductive verification (govc, /verif). Comment-only file.
+
+package tx
+
+// ---- C13: the dependency graph of the pool ----
+// hasEdge(g, from, to): the graph lists `to` among the transactions that must come
+// after `from`.
+// inSeq(c, n, x): x occurs among the first n elements of c. Opaque in the function
+// proofs; the two append lemmas (proved on their own) are all they need.
+//@ opaque spec func inSeq(c strarr, n int, x string) bool = exists j int :: 0 <= j && j < n && sel(c, j) == x
+//@ lemma seqAppendKeeps: forall c strarr, n int, x string, y string :: n >= 0 && inSeq(c, n, y) ==> inSeq(upd(c, n, x), n + 1, y)
+//@   property C13
+//@   reveals inSeq
+//@ lemma seqAppendAdds: forall c strarr, n int, x string :: n >= 0 ==> inSeq(upd(c, n, x), n + 1, x)
+//@   property C13
+//@   reveals inSeq
+//@ spec func hasEdge(g map[string][]string, from string, to string) bool = inSeq(content(g[from]), len(g[from]), to)
+//@ macro tokRef(m, c, i) = str(m[c].TxInputs[i].RefTxid)
+//@ macro keyRef(m, c, i) = str(m[c].TxInputsExt[i].RefTxid)
+//@ macro tokEdges(m, g, c, n) = (forall i int :: 0 <= i && i < n && in(m, tokRef(m, c, i)) ==> hasEdge(g, tokRef(m, c, i), c))
+//@ macro keyEdges(m, g, c, n) = (forall i int :: 0 <= i && i < n && in(m, keyRef(m, c, i)) ==> hasEdge(g, keyRef(m, c, i), c))
+
+// Every pool transaction that consumes an output or a key version produced by
+// another pool transaction is listed after its producer.
+//@ func Tx.SortUnconfirmedTx
+//@   property C13
+//@   uses seqAppendKeeps
+//@   uses seqAppendAdds
+//@   ensures producer_before_token_consumer: result3 == nil ==> (forall c string :: in(result0, c) ==> tokEdges(result0, result1, c, len(result0[c].TxInputs)))
+//@   ensures producer_before_key_consumer: result3 == nil ==> (forall c string :: in(result0, c) ==> keyEdges(result0, result1, c, len(result0[c].TxInputsExt)))
+//@   loop 1 invariant edges_of_visited: txMap != nil && txGraph != nil && (forall k string :: len(txGraph[k]) >= 0) && (forall c string :: in($visited, c) ==> in(txMap, c) && tokEdges(txMap, txGraph, c, len(txMap[c].TxInputs)) && keyEdges(txMap, txGraph, c, len(txMap[c].TxInputsExt)))
+//@   loop 2 invariant token_edges_so_far: txMap != nil && txGraph != nil && (forall k string :: len(txGraph[k]) >= 0) && in(txMap, txID) && txMap[txID] == tx && tokEdges(txMap, txGraph, txID, $i) && (forall c string :: in($visited#1, c) && c != txID ==> in(txMap, c)) && (forall c string :: in($visited#1, c) && c != txID ==> tokEdges(txMap, txGraph, c, len(txMap[c].TxInputs))) && (forall c string :: in($visited#1, c) && c != txID ==> keyEdges(txMap, txGraph, c, len(txMap[c].TxInputsExt)))
+//@   loop 3 invariant key_edges_so_far: txMap != nil && txGraph != nil && (forall k string :: len(txGraph[k]) >= 0) && in(txMap, txID) && txMap[txID] == tx && tokEdges(txMap, txGraph, txID, len(tx.TxInputs)) && keyEdges(txMap, txGraph, txID, $i) && (forall c string :: in($visited#1, c) && c != txID ==> in(txMap, c)) && (forall c string :: in($visited#1, c) && c != txID ==> tokEdges(txMap, txGraph, c, len(txMap[c].TxInputs))) && (forall c string :: in($visited#1, c) && c != txID ==> keyEdges(txMap, txGraph, c, len(txMap[c].TxInputsExt)))
+//@   sets lastTxMap = result0
+
+// A transaction that only READS a key version must come before the pool transaction
+// that overwrites that version (the property's last sentence): same bucket, key and
+// cited version, the other one also writes the key, this one does not.
+//@ spec func sameVersion(a *protos.TxInputExt, b *protos.TxInputExt) bool = a != nil && b != nil && a.Bucket == b.Bucket && bytesEq(a.Key, b.Key) && bytesEq(a.RefTxid, b.RefTxid) && a.RefOffset == b.RefOffset
+//@ spec func writesKeyS(t *xldgpb.Transaction, in *protos.TxInputExt) bool = exists o int :: 0 <= o && o < len(t.TxOutputsExt) && t.TxOutputsExt[o].Bucket == in.Bucket && bytesEq(t.TxOutputsExt[o].Key, in.Key)
+
+//@ func writesKey
+//@   property C13
+//@   ensures scans_all_outputs: result == (exists o int :: 0 <= o && o < len(tx.TxOutputsExt) && tx.TxOutputsExt[o].Bucket == txIn.Bucket && bytesEq(tx.TxOutputsExt[o].Key, txIn.Key))
+//@   loop 1 invariant none_so_far: 0 <= $i && $i <= len(tx.TxOutputsExt) && (forall o int :: 0 <= o && o < $i ==> !(tx.TxOutputsExt[o].Bucket == txIn.Bucket && bytesEq(tx.TxOutputsExt[o].Key, txIn.Key)))
+
+// The extra edges are only ever ADDED: every producer -> consumer edge survives, and
+// the pool itself is not touched. (That every reader -> overwriter pair gets its edge
+// is not proved here - the lookup table is keyed by a struct, which the memory model
+// abstracts - it is explored by the bounded pool-order check of the thorough tier.)
+//@ func addReadBeforeOverwriteEdges
+//@   property C13
+//@   uses seqAppendKeeps
+//@   ensures edges_only_added: forall a string, b string :: old(hasEdge(txGraph, a, b)) ==> hasEdge(txGraph, a, b)
+//@   loop 3 invariant kept: (forall k string :: len(txGraph[k]) >= 0) && (forall a string, b string :: old(hasEdge(txGraph, a, b)) ==> hasEdge(txGraph, a, b))
+//@   loop 4 invariant kept: (forall k string :: len(txGraph[k]) >= 0) && (forall a string, b string :: old(hasEdge(txGraph, a, b)) ==> hasEdge(txGraph, a, b))
+
+// lastTxMap / lastOrder: results of the latest SortUnconfirmedTx / TopSortDFS call.
+//@ ghost var lastTxMap Int
+//@ ghost var lastOrder slice
+//@ spec func asIds(s slice) []string = s
+//@ spec func asPool(m int) map[string]*xldgpb.Transaction = m
+
+// TopSortDFS uses recursive closures over captured maps, outside the verified
+// subset: its contract is ASSUMED here (trusted) and explored by a bounded check on
+// the real function in the thorough tier (all graphs of up to 4 nodes).
+//@ func TopSortDFS
+//@   property C13
+//@   noverify
+//@   sets lastOrder = result0
+//@   ensures acyclic_graph_is_ordered: !result1 ==> (forall a string, b string, i int, j int :: 0 <= i && i < len(result0) && 0 <= j && j < len(result0) && result0[i] == a && result0[j] == b && hasEdge(g, a, b) ==> i < j)
+
+// The pool order handed to the miner is the topological order of the pool graph,
+// each id mapped to its pool transaction, nothing dropped (dedup off).
+//@ func Tx.GetUnconfirmedTx
+//@   property C13
+//@   at TopSortDFS assert sorts_the_pool_graph: $0 == txGraph
+//@   at addReadBeforeOverwriteEdges assert on_the_pool_and_its_graph: $0 == txMap && $1 == txGraph
+//@   ensures follows_the_sort_order: result1 == nil && !dedup ==> len(result0) == len(asIds(lastOrder)) && (forall k int :: 0 <= k && k < len(result0) ==> result0[k] == asPool(lastTxMap)[asIds(lastOrder)[k]])
+//@   ensures cycle_is_an_error: result1 != nil ==> result0 == nil
+//@   loop 1 invariant mapped_so_far: outputTxList == lastOrder && txMap == lastTxMap && 0 <= $i && $i <= len(outputTxList) && (!dedup ==> len(selectedTxs) == $i && (forall k int :: 0 <= k && k < $i ==> selectedTxs[k] == asPool(lastTxMap)[asIds(lastOrder)[k]]))
+
+// The award transaction is a coinbase with exactly one output carrying the asked
+// (decimal) amount to the asked address; a negative amount is refused.
+//@ func GenerateAwardTx
+//@   property C13
+//@   uses natCanon
+//@   requires decimal: okDec(awardAmount)
+//@   ensures coinbase_with_one_output_of_the_amount: result1 == nil ==> result0 != nil && result0.Coinbase && !result0.Autogen && len(result0.TxOutputs) == 1 && result0.TxOutputs[0] != nil && natOf(result0.TxOutputs[0].Amount) == parseDec(awardAmount) && str(result0.TxOutputs[0].ToAddr) == address && len(result0.TxInputs) == 0 && len(result0.TxInputsExt) == 0 && len(result0.TxOutputsExt) == 0
+//@   ensures negative_refused: result1 != nil ==> parseDec(awardAmount) < 0 && result0 == nil
